@@ -193,6 +193,7 @@ class BatchSage:
             n_inner_samples = self.n_inner_samples
         sage_values = {feature: 0. for feature in self.feature_names}
         n_data = len(x_data)
+        n_explained = n_data
         all_predictions = self._model_function(x_data)
         marginal_prediction = _get_mean_model_output(all_predictions)
         for n, (x_i, y_i) in tqdm(enumerate(zip(x_data, y_data), start=1), total=n_data,
@@ -213,7 +214,7 @@ class BatchSage:
                 marginal_contribution = loss_previous - feature_loss
                 sage_values[feature] += marginal_contribution
                 loss_previous = feature_loss
-            n_data = n
-        self.importance_values = {feature: sage_value / n_data
+            n_explained = n
+        self.importance_values = {feature: sage_value / n_explained
                                   for feature, sage_value in sage_values.items()}
         return self.importance_values
